@@ -162,13 +162,15 @@ def path_agreement(ctx, P, py, rule="NEWICK-PATHS"):
 NONE_TRUTHY_OK = {("trees", "TreeSequence.variants", "copy"), ("genotypes", "Variant.frequencies", "remove_missing")}
 
 
-def none_defaults(ctx, py, mods=("trees", "tables", "text_formats", "vcf", "genotypes", "stats"), rule="PY-NONE-DEFAULT"):
+def none_defaults(ctx, py, mods=("trees", "tables", "text_formats", "vcf", "genotypes", "stats"), rule="PY-NONE-DEFAULT", only=None):
     ctx.rule(rule, "a parameter whose default is None is defaulted with `is None`, never by truthiness (`if not p` / `p or d`), so a "
                    "legal falsy value such as precision=0 is honoured (boolean options excepted by name)")
     n = 0
     for mn in mods:
         m = py.mod(mn)
         for qn, fn in m.funcs.items():
+            if only is not None and not only(mn, qn):
+                continue
             names, kwonly, defaults = params_of(fn)
             nonep = {p for p, d in defaults.items() if isinstance(d, ast.Constant) and d.value is None}
             if not nonep:
